@@ -96,10 +96,11 @@ public:
 	m_value = v.index();
       } else if (m_kind == ExactlyOne || m_kind == ZeroOrMore ||
 		 m_kind == ZeroOrOne || m_kind == OneOrMore) {
-	if (!(m_kind == ExactlyOne && m_value.value() == v.index())) {
-	  m_kind = OneOrMore;
-	  m_value = boost::none;
-	}
+	// Even if the counter is 1(v) and v is being redefined, the
+	// thing counted for the old value of v can still be alive
+	// through an alias of v.
+	m_kind = OneOrMore;
+	m_value = boost::none;
       } else {
 	CRAB_ERROR("small_range::increment unreachable");
       }
